@@ -375,6 +375,18 @@ func MultiZone(v int) func(name string, t uint16) dohmem.Answer {
 			return dohmem.Answer{Records: []dnsref.RR{svc(2, ""), svc(0, "elsewhere.example"), svc(1, "")}}
 		case (name == "n3.example" || name == "n4.example") && t == 1:
 			return dohmem.Answer{Records: []dnsref.RR{{Name: name, Type: 1, Class: 1, TTL: 2, Fields: []dnsref.Field{{Raw: []byte{10, 9, 9, 9}}}}}}
+		// n5 = three service-mode records naming three DISTINCT targets, each with its own addresses (used by the supplementary
+		// race pass only: lookups of distinct targets done at the same time must not share unguarded state)
+		case name == "n5.example" && t == 65:
+			return dohmem.Answer{Records: []dnsref.RR{svc(1, "t1.n5.example"), svc(2, "t2.n5.example"), svc(3, "t3.n5.example")}}
+		case strings.HasSuffix(name, ".n5.example") && (t == 1 || t == 28):
+			ip := []byte{10, 5, 5, name[1]}
+			if t == 28 {
+				ip = append(make([]byte, 12), ip...)
+			}
+			return dohmem.Answer{Records: []dnsref.RR{{Name: name, Type: t, Class: 1, TTL: 2, Fields: []dnsref.Field{{Raw: ip}}}}}
+		case name == "n5.example" || strings.HasSuffix(name, ".n5.example"):
+			return dohmem.Answer{}
 		case name == "n3.example" || name == "n4.example" || name == "elsewhere.example":
 			return dohmem.Answer{}
 		}
